@@ -9,7 +9,7 @@ CAT = AC.load()
 AGUARD = 64            # octets behind every operand buffer (harness-owned, must stay untouched)
 GUARD = 768            # octets behind the exactly-deep scratch area, owned by the harness, must stay untouched
 POISON = 0xEE
-LIMIT = {'quick': 45000, 'thorough': 120000}
+LIMIT = {'quick': (45000, 8000), 'thorough': (120000, 24000)}     # complete cross product up to this many tuples (all lengths <= 2 / above)
 
 # ------------------------------------------------------------------------------------------ input tuples
 def alias_groups(mode):
@@ -21,7 +21,8 @@ def gen_inputs(ent, sh, W, alias, tier):
     names = list(ent.dom)
     base = V(sh); base['W'] = W; base['B'] = B
     inner = [k for k in names if not getattr(ent.dom[k], 'outer', False)]
-    limit = LIMIT[tier]
+    small = all(ev(a.length, sh, W) <= 2 for a in ent.args if a.kind in ('in', 'io'))
+    limit = LIMIT[tier][0 if small else 1] // getattr(ent, 'weight', 1)
     def walk(fullset):
         out = []
         def rec(i, v):
